@@ -1073,6 +1073,10 @@ impl<'a> Oracle<'a> {
             _ => None,
         });
         let Some(p) = p else { return "v.".into() };
+        if p.len() > 64 {
+            // more PDOs than ethercrab's `heapless::Vec<Pdo, 64>` holds: refused, never truncated
+            return "E:cap.2".into();
+        }
         let items: Vec<String> = p
             .iter()
             .map(|p| {
